@@ -13,6 +13,7 @@ elsewhere: parent coordinates = coordinates >> 1 and the child loop covering all
 builders and the Hilbert class agreeing with these builders (C11.3), the executors applying M2L over [U, H-1] and P2P at the leaf level
 with these lists (C12.3, C01.5), the half list feeding a mutual operator and the full list a one-sided one (C09.2, C20)."""
 import itertools
+import re
 
 import tbf
 from tbf import walk, kids, strip, AnalysisBroken
@@ -103,9 +104,11 @@ class Mini:
         self.bad(s, "statement form")
 
 
-class ImageLost(Exception):
+class ImageLost(AnalysisBroken):
+    """a construct of a periodic builder after which the image a candidate was taken from can no longer be known; where the periodic
+    decomposition is checked it is reported as a violation, anywhere else it reads as `not recognised` (analysis broken)"""
     def __init__(self, node, msg):
-        Exception.__init__(self, msg)
+        AnalysisBroken.__init__(self, msg)
         self.node = node
 
 
@@ -178,6 +181,24 @@ class Builder:
                 if len(asg) >= 4:
                     self.dimloop = l
         if self.dimloop is None:
+            # candidates taken from a list of (wrapped) cell indexes produced by another list builder of the class
+            for l in walk(body):
+                if l.get("k") != "CXXForRangeStmt":
+                    continue
+                rng = strip(l["c"][1]) if len(l.get("c", [])) > 1 and l["c"][1] is not None else None
+                src = None
+                for y in (walk(rng) if rng is not None else []):
+                    if y.get("k") in ("CallExpr", "CXXMemberCallExpr") and re.match(r"^get\w*ListFor\w+$", tbf.callee_name(y) or ""):
+                        src = y
+                    if y.get("k") == "DeclRefExpr":
+                        dv = [v for v in decls if v.get("did") == y.get("did") and kids(v)]
+                        for c_ in (walk(kids(dv[0])[0]) if dv else []):
+                            if c_.get("k") in ("CallExpr", "CXXMemberCallExpr") and re.match(r"^get\w*ListFor\w+$", tbf.callee_name(c_) or ""):
+                                src = c_
+                if src is not None:
+                    raise ImageLost(src, "%s takes its candidate cells from the index list returned by %s(): the indexes are wrapped into the box, so the image through which a candidate is reached is no longer known; "
+                                    "on a periodic grid with fewer than 8 cells per side (levels 1 and 2) the same cell is reached through several images, each of which must be listed with its own relative position - "
+                                    "a test on the nearest image keeps at most one of them" % (fn["name"], tbf.callee_name(src)))
             raise AnalysisBroken("%s: the loop that fills the offset window was not recognised" % fn["qname"])
         arrays = []
         for y in walk(kids(self.dimloop)[-1]):
@@ -377,7 +398,11 @@ def neighbour_filters(facts, b):
 
 
 def check(facts, res, R, cls, U, thorough=False):
-    far = Builder(facts, cls, "getInteractionListForIndex")
+    try:
+        far = Builder(facts, cls, "getInteractionListForIndex")
+    except ImageLost as e_:
+        res.violation(R, tbf.rel(facts.path_of(e_.node)), cls + "::getInteractionListForIndex", "image-lost", e_.node["l"][1], str(e_))
+        return 0
     near = Builder(facts, cls, "getNeighborListForIndex")
     f = tbf.rel(facts.path_of(far.fn))
     T = far.threshold()
@@ -449,7 +474,11 @@ def check_periodic(facts, res, R, cls, U, thorough=False):
     clamps, wrap of the candidate parent and the shift added to its children's coordinates, empty-below level) and transfers from level U,
     every UNWRAPPED leaf cell z of the images -1 .. 1 other than the target x itself reaches x exactly once, and no cell outside that cube
     reaches it at all.  This is the premise of the tiling of the virtual levels (C10.6: the real tree covers [-1, 1])."""
-    far = Builder(facts, cls, "getInteractionListForIndex")
+    try:
+        far = Builder(facts, cls, "getInteractionListForIndex")
+    except ImageLost as e_:
+        res.violation(R, tbf.rel(facts.path_of(e_.node)), cls + "::getInteractionListForIndex", "image-lost", e_.node["l"][1], str(e_))
+        return 0
     near = Builder(facts, cls, "getNeighborListForIndex")
     f = tbf.rel(facts.path_of(far.fn))
     T = far.threshold()
